@@ -260,6 +260,18 @@ theorem hEnumValue_ok {a b c d e f g h : Fmt} (ha : HasKind a .str) (hb : HasKin
     exact ⟨PlainRows.nil, pg.append ph, by simp [enumNames]⟩
   · simp [content_of_asRows hlg, content_of_asRows hlh, Block.content, Row.content]
 
+theorem hDocRstrip_ok {a : Fmt} (ha : HasKind a .str) :
+    ∃ v, hDocRstrip [a] = some v ∧ HasKind v .str ∧ content v = contents [a] := by
+  obtain ⟨a, rfl⟩ := ha
+  exact ⟨.str (rstrip a), by simp [hDocRstrip, asStr], ⟨_, rfl⟩, by simp⟩
+
+theorem hAdditiveExpressionRight_ok {a b : Fmt} (ha : HasKind a .str) (hb : HasKind b .str) :
+    ∃ v, hAdditiveExpressionRight [a, b] = some v ∧ HasKind v .str ∧ content v = contents [a, b] := by
+  obtain ⟨a, rfl⟩ := ha; obtain ⟨b, rfl⟩ := hb
+  by_cases h : a = ['-'] ∧ b.head? = some '-'
+  · exact ⟨.str (a ++ sp ++ b), by simp [hAdditiveExpressionRight, asStr, h], ⟨_, rfl⟩, by simp⟩
+  · exact ⟨.str (a ++ b), by simp [hAdditiveExpressionRight, asStr, h], ⟨_, rfl⟩, by simp⟩
+
 /-! ### Python `+` -/
 
 theorem pyAdd_blocks {a b : Fmt} {la lb : List Block} (ha : asBlocks a = some la) (hb : asBlocks b = some lb) :
